@@ -162,11 +162,22 @@ def sh(cmd, cwd, env=None, timeout=3600):
     e.update({"CARGO_NET_OFFLINE": "true"})
     if env:
         e.update(env)
+    # own session: on a timeout the whole process group goes (a mutant can make a test spin or allocate without bound)
+    import signal
+    p = subprocess.Popen(cmd, cwd=cwd, env=e, shell=True, stdout=subprocess.PIPE, stderr=subprocess.STDOUT, start_new_session=True)
     try:
-        p = subprocess.run(cmd, cwd=cwd, env=e, shell=True, stdout=subprocess.PIPE, stderr=subprocess.STDOUT, timeout=timeout)
-        return p.returncode, p.stdout.decode(errors="replace")
-    except subprocess.TimeoutExpired as x:
-        return 124, (x.stdout or b"").decode(errors="replace")
+        out, _ = p.communicate(timeout=timeout)
+        rc = p.returncode
+    except subprocess.TimeoutExpired:
+        os.killpg(p.pid, signal.SIGKILL)
+        out, _ = p.communicate()
+        rc = 124
+    # nextest / cargo may leave grandchildren behind when a test never ends
+    try:
+        os.killpg(p.pid, signal.SIGKILL)
+    except ProcessLookupError:
+        pass
+    return rc, (out or b"").decode(errors="replace")
 
 
 def main():
@@ -229,7 +240,7 @@ def main():
             if rc != 0:
                 rec["result"] = "uncompilable"
             else:
-                rc, o = sh("cargo nextest run --workspace --no-fail-fast --offline --test-threads 6 2>&1 | grep -E '^ *(Summary|FAIL|error\\[|error:)' | head -8", repo, timeout=1800)
+                rc, o = sh("timeout -k 5 900 cargo nextest run --workspace --no-fail-fast --offline --test-threads 6 2>&1 | grep -E '^ *(Summary|FAIL|error\\[|error:)' | head -8", repo, timeout=1800)
                 m = re.search(r"(\d+) passed", o)
                 failed = re.search(r"(\d+) failed", o)
                 if "FAIL" in o or failed or "timed out" in o:
